@@ -119,9 +119,19 @@ pub fn afftree<const K: usize>(out: &mut String, t: &AffTree<K>) {
     afftree_arena(out, &t.tree);
 }
 
+thread_local! {
+    /// arena index of the draft root that a second `Tree::add_root` left behind, disconnected (the documented
+    /// exception to reachability); it is not part of the tree and is left out of the dumps of the current case
+    pub static ORPHAN: std::cell::Cell<Option<usize>> = const { std::cell::Cell::new(None) };
+}
+
 pub fn afftree_arena<const K: usize>(out: &mut String, t: &Tree<AffContent, K>) {
-    write!(out, "{} {} {}", K, opt_idx(Some(t.get_root_idx())), t.len()).unwrap();
+    let orphan = ORPHAN.with(|o| o.get()).filter(|o| t.node_iter().any(|(i, nd)| i == *o && nd.parent.is_none() && i != t.get_root_idx()));
+    write!(out, "{} {} {}", K, opt_idx(Some(t.get_root_idx())), t.len() - if orphan.is_some() { 1 } else { 0 }).unwrap();
     for (idx, nd) in t.node_iter() {
+        if Some(idx) == orphan {
+            continue;
+        }
         write!(out, " {} {}", idx, opt_idx(nd.parent)).unwrap();
         for c in nd.children.iter() {
             write!(out, " {}", opt_idx(*c)).unwrap();
